@@ -100,8 +100,55 @@ def build_create_period(i):
             'post_env': lambda: {'ast_at_url_time': seen.get('ast'), 'depth_at_url_time': seen.get('depth')}}
 
 
+def build_context_init(variant, i):
+    import logging
+    import math
+    from fractions import Fraction
+    EPOCH = datetime.datetime(1970, 1, 1, tzinfo=datetime.timezone.utc)
+    US = datetime.timedelta(microseconds=1)
+    g = lambda k: int(i[k])
+    if max(abs(g('clock_us')), abs(g('publish_us')), abs(g('media_us')), abs(g('drift')) * 10**6) > 10**17 or g('mup_d') < 1:
+        raise ValueError('instant out of range for a native datetime')
+    patch = variant == 'live-patch'
+
+    class Clock(datetime.datetime):
+        @classmethod
+        def now(cls, tz=None):
+            return EPOCH + g('clock_us') * US
+
+    class DashTiming:
+        def __init__(self, now, ref, options):
+            self.now, self.ref, self.options = now, ref, options
+            self.publishTime = EPOCH + g('publish_us') * US
+            self.timeShiftBufferDepth = g('tsbd')
+            self.minimumUpdatePeriod = Fraction(g('mup_n'), g('mup_d'))
+    opts = NS(clockDrift=None if i['drift_none'] else g('drift'), mode='live', utcMethod=None, patch=patch)
+    ref = NS(media_duration_timedelta=lambda: g('media_us') * US)
+    stream = NS(directory='dir', title='title', timing_reference=ref)
+    mft = NS(name='manifest-name')
+    me = NS()
+
+    def create_period(stream_, timing, db_period=None):
+        me.cgi_params = NS(patch={})
+        return NS(stream=stream_, timing=timing, db_period=db_period)
+    me.create_period = create_period
+    fn = extract_method(MCX, 'ManifestContext', '__init__', {
+        'flask': NS(url_for=lambda route, **kw: NS(route=route, **kw)), 'logging': logging, 'math': math,
+        'datetime': NS(datetime=Clock, timedelta=datetime.timedelta, timezone=datetime.timezone), 'UTC': lambda: datetime.timezone.utc,
+        'DashTiming': DashTiming, 'PatchLocation': lambda **kw: NS(**kw), 'TimeSourceContext': object,
+        'primary_profiles': {'live': 'profile-live', 'vod': 'profile-vod', 'odvod': 'profile-odvod'},
+        'additional_profiles': {'dvb': 'profile-dvb'}, 'objects': NS(dict_to_cgi_params=lambda d: ''), 'models': NS()})
+    us = lambda dt: (dt - EPOCH) // US if isinstance(dt, datetime.datetime) else -1
+    env = {k: g(k) for k in ('clock_us', 'drift', 'publish_us', 'tsbd', 'mup_n', 'mup_d', 'media_us')}
+    env.update(drift_none=bool(i['drift_none']), self=me, options=opts, manifest=mft, stream=stream, multi_period=None,
+               instant_us=us, has_field=lambda o, k: hasattr(o, k))
+    return {'env': env, 'old_env': dict(env), 'call': lambda: fn(me, opts, mft, stream, None)}
+
+
 def build(key, variant, i):
     qual = key.split(':')[1]
+    if qual == 'ManifestContext.__init__':
+        return build_context_init(variant, i)
     if qual == 'ManifestContext.create_period':
         return build_create_period(i)
     if qual == 'ServeMpsMedia.get':
